@@ -312,3 +312,78 @@ impl Scheduler for DiffScheduler {
         }
     }
 }
+
+/// Follows a recorded schedule and, once it is exhausted (or departs from it), always runs the
+/// runnable task that has waited longest: a fair continuation under which every busy-wait whose
+/// condition is eventually established by another task terminates.
+pub struct FairTailScheduler {
+    tasks: Vec<u32>,
+    randoms: Vec<u64>,
+    rnd_pos: usize,
+    fallback: SplitMix64,
+    step: usize,
+    started: bool,
+    last_run: Vec<usize>,
+    in_tail: bool,
+}
+
+impl FairTailScheduler {
+    pub fn new(trace: &Trace) -> Self {
+        FairTailScheduler {
+            tasks: trace.tasks.clone(),
+            randoms: trace.randoms.clone(),
+            rnd_pos: 0,
+            fallback: SplitMix64::new(0xFA18),
+            step: 0,
+            started: false,
+            last_run: vec![],
+            in_tail: false,
+        }
+    }
+}
+
+impl Scheduler for FairTailScheduler {
+    fn new_execution(&mut self) -> Option<Schedule> {
+        if self.started {
+            None
+        } else {
+            self.started = true;
+            Some(Schedule::new(0))
+        }
+    }
+    fn next_task(&mut self, runnable: &[&Task], _current: Option<TaskId>, _is_yielding: bool) -> Option<TaskId> {
+        let step = self.step;
+        self.step += 1;
+        let mut choice = None;
+        if !self.in_tail && step < self.tasks.len() {
+            let want = TaskId::from(self.tasks[step] as usize);
+            if runnable.iter().any(|t| t.id() == want) {
+                choice = Some(want);
+            }
+        }
+        if choice.is_none() {
+            self.in_tail = true;
+            let lr = &self.last_run;
+            choice = runnable
+                .iter()
+                .map(|t| t.id())
+                .min_by_key(|t| (lr.get(usize::from(*t)).copied().unwrap_or(0), usize::from(*t)));
+        }
+        if let Some(c) = choice {
+            let id: usize = c.into();
+            if self.last_run.len() <= id {
+                self.last_run.resize(id + 1, 0);
+            }
+            self.last_run[id] = step + 1;
+        }
+        choice
+    }
+    fn next_u64(&mut self) -> u64 {
+        if self.rnd_pos < self.randoms.len() {
+            self.rnd_pos += 1;
+            self.randoms[self.rnd_pos - 1]
+        } else {
+            self.fallback.next_u64()
+        }
+    }
+}
